@@ -73,6 +73,19 @@ def trees(nops, syms):
                         yield (sym, l, r)
 
 
+def trees_rooted(nops, syms, root):
+    """trees with exactly nops operator nodes whose root operator is `root`"""
+    arity = OPMAP[root][2]
+    if arity == 1:
+        for t in trees(nops - 1, syms):
+            yield (root, t)
+    else:
+        for k in range(nops):
+            for l in trees(k, syms):
+                for r in trees(nops - 1 - k, syms):
+                    yield (root, l, r)
+
+
 def fill(tree, leaves):
     """replace None leaves by the given leaf texts (in order)"""
     it = iter(leaves)
@@ -236,10 +249,14 @@ def plan(tier, seed):
     # trees over representatives, split by root symbol
     for n in range(1, b["n_reps"] + 1):
         for root in REPS:
-            tasks.append(("T", "reps", n, root))
+            nsh = 8 if n >= 4 else 1
+            for sh in range(nsh):
+                tasks.append(("T", "reps", n, root, sh, nsh))
     for n in range(1, b["n_all"] + 1):
         for root in allsyms:
-            tasks.append(("T", "all", n, root))
+            nsh = 4 if n >= 3 else 1
+            for sh in range(nsh):
+                tasks.append(("T", "all", n, root, sh, nsh))
     for root in REPS:
         tasks.append(("L", b["leaf_n"], root))
     if "chain" in b:
@@ -251,10 +268,12 @@ def gen(task):
     """yield (tree-with-leaves) for a task"""
     allsyms = [o[0] for o in OPS]
     if task[0] == "T":
-        _, which, n, root = task
+        _, which, n, root, shard, nshards = task
         syms = REPS if which == "reps" else allsyms
-        for t in trees(n, syms):
-            if t[0] != root:
+        idx = 0
+        for t in trees_rooted(n, syms, root):
+            idx += 1
+            if idx % nshards != shard:
                 continue
             yield fill(t, NAMES[: nleaves(t)] if nleaves(t) <= len(NAMES) else [NAMES[i % len(NAMES)] for i in range(nleaves(t))])
     elif task[0] == "L":
